@@ -154,8 +154,14 @@ def rule_CHOKE(ctx):
     if not lines:
         raise AnalysisError('get_dtype: sized Dtype._create call not found')
     calls = min(lines)
-    allowed = [i for i in own_walk(gd.node) if isinstance(i, ast.If) and 'not in self.allowed_lengths' in ast.unparse(G.expand(gd, i.test))
-               and (G.raises_in(i.body) or any(isinstance(y, ast.Raise) for b in i.body for y in ast.walk(b)))]
+    def rejects_outside(i):
+        # `if length not in A: raise` or `if length in A: ... else: raise` - read with the test made positive
+        t, body, orelse = G.pos_if(i)
+        t = G.expand(gd, t)
+        if not (isinstance(t, ast.Compare) and len(t.ops) == 1 and isinstance(t.ops[0], ast.In) and ast.unparse(t.comparators[0]) == 'self.allowed_lengths'):
+            return False
+        return G.always_raises(orelse)
+    allowed = [i for i in own_walk(gd.node) if isinstance(i, ast.If) and rejects_outside(i)]
     if not allowed or allowed[0].lineno > calls:
         r.fail(gd.key, 'allowed-length test', 'a length outside allowed_lengths must be rejected before the Dtype is created', loc=gd.loc())
     else:
